@@ -10,7 +10,7 @@ struct Hostile {
   EncNode aux; Source aux_src; int64_t aux_pos = 0;    // second session (other rate/channels/mode) for CROSS
   DecNode rx; int rx_kind = K_SINGLE;
   std::vector<Bytes> pool;
-  Bytes inflight; bool have = false; bool keep = false;
+  Bytes inflight; bool have = false; int keep = 0;
   Bytes stash; bool have_stash = false;
   unsigned faultmask = 0;
   explicit Hostile(Run &r) : run(r) {}
@@ -74,7 +74,8 @@ struct Hostile {
     (use_aux ? aux_pos : S.pos) += frame;
     if (ret <= 0) return;
     S.frames_encoded++;
-    inflight = pkt; have = true; keep = false; faultmask = 0;
+    if (keep > 0 && have) { if (pool.size() < 64) pool.push_back(pkt); run.count("pkt_shadowed_by_repeat"); return; }   // a stuck / replaying sender: the fresh packet never arrives
+    inflight = pkt; have = true; keep = 0; faultmask = 0;
     if (pool.size() < 64) pool.push_back(pkt); else pool[(size_t)(run.evhash % 64)] = pkt;
     run.count(use_aux ? "pkt_aux" : "pkt_main");
     static const char *mn[3] = {"mode_silk", "mode_hybrid", "mode_celt"};
@@ -88,6 +89,7 @@ struct Hostile {
       bool sd = s != streams - 1;
       int M = 1, code = shape & 3;
       unsigned char toc = (unsigned char)((g.range(0, 31) << 3) | (g.range(0, 1) << 2));
+      if (shape & 16) toc = (unsigned char)(((16 + g.range(0, 3) * 4 + g.range(0, 1)) << 3) | (g.range(0, 1) << 2));   // CELT 2.5 / 5 ms: strongest inter-frame energy prediction
       std::vector<Bytes> frames;
       if (code == 1 || code == 2) M = 2;
       if (code == 3) { int maxM = 5760 / toc_frame48(toc); M = (int)g.range(1, std::min(48, maxM)); if (g.chance(0.1)) M = (int)g.range(0, 63); }
@@ -115,7 +117,8 @@ struct Hostile {
     auto need = [&]() { return have && !inflight.empty(); };
     switch (kind) {
       case 0: if (have) { have = false; run.count("f_drop"); faultmask |= 1; } break;
-      case 1: if (have) { keep = true; run.count("f_dup"); faultmask |= 2; } break;
+      case 1: if (have) { keep = std::max(keep, 1); run.count("f_dup"); faultmask |= 2; } break;
+      case 12: if (have) { keep = (int)(2 + op.arg(1) % 30); run.count("f_repeat"); faultmask |= 4096; } break;   // the same packet delivered again and again (stuck sender / replay)
       case 2: if (need()) { inflight.resize((size_t)(op.arg(1) % (int64_t)(inflight.size() + 1))); run.count("f_trunc"); faultmask |= 4; } break;
       case 3: if (need()) {
         int nb = (int)(1 + op.arg(2) % 8);
@@ -233,7 +236,7 @@ struct Hostile {
     int ret;
     if (how == 4) {
       // NULL with len>0: cannot go through the exact-size copy
-      size_t ss = fmt == FMT_I16 ? 2 : 4; ExactBuf ob((size_t)std::max(frame_size, 0) * rx.ch * ss, 0x7B);
+      size_t ss = fmt == FMT_I16 ? 2 : 4; ExactBuf ob((size_t)std::max(frame_size, 0) * rx.ch * ss, 0xFF);
       ret = fmt == FMT_I16 ? opus_decode(rx.d, nullptr, len, (opus_int16 *)ob.p, frame_size, fec)
           : fmt == FMT_I24 ? opus_decode24(rx.d, nullptr, len, (opus_int32 *)ob.p, frame_size, fec)
                            : opus_decode_float(rx.d, nullptr, len, (float *)ob.p, frame_size, fec);
@@ -254,6 +257,11 @@ struct Hostile {
       run.api_ok++; run.sim_samples48 += (long)ret * 48000 / rx.fs;
       if (how == 1 || how == 2 || how == 4) run.count("rx_plc"); else if (fec == 1) run.count("rx_fec"); else run.count("rx_decoded");
     } else run.count(strf("rx_err%d", ret));
+    if (ret > 0) {
+      // documented: duration of the last packet successfully decoded or concealed
+      opus_int32 lpd = -1; rx.get(OPUS_GET_LAST_PACKET_DURATION_REQUEST, &lpd);
+      if (lpd != ret) REPORT(run, prop, "last_packet_duration_wrong", "ret=%d reported=%d how=%d fec=%d", ret, lpd, how, fec);
+    }
     if (how == 0 && ann > 0 && fec == 0 && frame_size >= ann) {
       run.count("valid_framing_checked");
       opus_int32 lpd = -1; rx.get(OPUS_GET_LAST_PACKET_DURATION_REQUEST, &lpd);
@@ -261,8 +269,7 @@ struct Hostile {
       if (lpd != ret) REPORT(run, prop, "last_packet_duration_wrong", "ret=%d reported=%d", ret, lpd);
     }
     run.sg(mix64(mix64(how * 16 + fcode, (uint64_t)(fec + 2)), mix64((uint64_t)(ret < 0 ? ret : (ret > 0)), faultmask ^ ((b && !b->empty()) ? (uint64_t)((*b)[0] >> 3) << 16 : 0))));
-    if (!keep) { have = false; }
-    keep = false;
+    if (keep > 0) keep--; else have = false;
   }
 
   void op_dctl(const Op &op) {
@@ -322,11 +329,21 @@ Plan gen(uint64_t seed, int tier) {
   int fidx = r.weighted({1, 1, 5, 9, 3, 3, 1, 1, 1});
   // swarm: which fault kinds are enabled in this run
   std::vector<int> kinds;
-  for (int k = 0; k <= 11; k++) if (r.chance(0.45)) kinds.push_back(k);
+  for (int k = 0; k <= 12; k++) if (r.chance(0.45)) kinds.push_back(k);
   if (kinds.empty()) kinds.push_back((int)r.range(2, 10));
   double pfault = r.pick({0.1, 0.3, 0.6, 0.9}), pdctl = r.pick({0.0, 0.05, 0.2}), ploss = r.pick({0.0, 0.05, 0.2});
   bool shapes = r.chance(0.6);
+  bool replay_attack = r.chance(0.15);   // a hostile sender that keeps replaying one crafted packet: state that accumulates over identical frames
   for (int i = 0; i < ncalls; i++) {
+    if (replay_attack && r.chance(0.5)) {
+      int reps = (int)r.range(6, 30);
+      if (r.chance(0.7)) p.ops.push_back(mkop("NET", {9, r.chance(0.6) ? 16 + r.range(0, 15) : r.range(0, 15), r.pick({2, 4, 8, 16, 22, 30, 40, 80, 200}), (int64_t)r.range(1, 1 << 30)}));
+      else { p.ops.push_back(mkop("PKT", {0, r.weighted({3, 3, 2, 2, 1, 1, 0, 0, 0}), 1500, r.range(0, 2)})); p.ops.push_back(mkop("NET", {r.pick({3, 4, 7}), (int64_t)r.range(0, 1 << 16), (int64_t)r.range(0, 1 << 16), (int64_t)r.range(1, 1 << 30)})); }
+      p.ops.push_back(mkop("NET", {12, reps, 0, 1}));
+      int fmt = r.chance(0.7) ? 2 : (int)r.range(0, 1);
+      for (int k = 0; k < reps && i < ncalls; k++, i++) p.ops.push_back(mkop("RX", {0, r.pick({0, 6, 6}), 0, fmt, 0}));
+      continue;
+    }
     if (r.chance(0.1)) push_ctl();
     if (r.chance(0.04)) push_src();
     if (r.chance(0.1)) fidx = r.weighted({1, 1, 5, 9, 3, 3, 1, 1, 1});
